@@ -336,6 +336,7 @@ func init() {
 		abandonedThenNext(o, &id)
 		replyAsYouGo(o, &id, goChecked)
 		emptyUnaryReply(o, &id)
+		largeStreamedMessages(o, &id)
 		o.Shard = 30
 	}
 }
@@ -838,4 +839,89 @@ func emptyUnaryReply(o *hx.Out, id *int) {
 		goChecked(o, "empty_unary_reply_"+t.name, *id, ok, d)
 		t.stop()
 	}
+}
+
+// largeStreamedMessages: several LARGE messages in a row (200-280 KB, each with its own content) in both directions
+// of a stream: each is received equal to the one sent
+func largeStreamedMessages(o *hx.Out, id *int) {
+	mk := func(i int) *hx.Msg {
+		b := make([]byte, 200_000+((7*i)%5)*15_000) // sizes go up and down
+		for j := range b {
+			b[j] = byte(i*31 + j*7 + 1)
+		}
+		return &hx.Msg{Count: int32(i), Payload: b}
+	}
+	const n = 10
+	var handlerBad int32
+	svc := &hx.Svc{Stream: func(kind string, ss grpc.ServerStream) error {
+		i := 0
+		for {
+			m := &hx.Msg{}
+			if err := ss.RecvMsg(m); err != nil {
+				break
+			}
+			if !proto.Equal(m, mk(i)) {
+				atomic.AddInt32(&handlerBad, 1)
+			}
+			i++
+		}
+		for j := 0; j < n; j++ {
+			if err := ss.SendMsg(mk(j)); err != nil {
+				return err
+			}
+		}
+		return nil
+	}}
+	for _, t := range bothTransports(svc) {
+		rounds := 40
+		if t.name == "inprocgrpc" {
+			rounds = 4
+		}
+		for round := 0; round < rounds; round++ {
+			atomic.StoreInt32(&handlerBad, 0)
+			ctx, cancel := context.WithTimeout(context.Background(), 10*time.Second)
+			cs, err := t.ch.NewStream(ctx, hx.StreamDescOf("BD"), "/verif.Svc/BD")
+			bad := ""
+			got := 0
+			if err == nil {
+				for i := 0; i < n; i++ {
+					cs.SendMsg(mk(i))
+				}
+				cs.CloseSend()
+				for {
+					m := &hx.Msg{}
+					if e := cs.RecvMsg(m); e != nil {
+						if e != io.EOF {
+							bad += " final: " + e.Error()
+						}
+						break
+					}
+					if !proto.Equal(m, mk(got)) && bad == "" {
+						bad += fmt.Sprintf(" response %d arrived with count %d, %d payload bytes, first byte %#x", got, m.Count, len(m.Payload), firstByte(m.Payload))
+					}
+					got++
+				}
+				runtime.KeepAlive(cs)
+			} else {
+				bad = err.Error()
+			}
+			cancel()
+			hb := atomic.LoadInt32(&handlerBad)
+			ok := bad == "" && got == n && hb == 0
+			d := map[string]interface{}{"transport": t.name, "kind": "BD, ten messages of 200-280 KB each way, each with its own content", "responses_received": got, "first_wrong_response": bad, "requests_the_handler_found_changed": hb}
+			if !ok {
+				o.Violate("a large streamed message was not received equal to the one sent", d, bad, "")
+			}
+			*id++
+			goChecked(o, "large_streamed_messages_"+t.name, *id, ok, d)
+		}
+		t.stop()
+	}
+}
+
+func firstByte(b []byte) byte {
+	if len(b) == 0 {
+		return 0
+	}
+	return b[0]
 }
